@@ -3,7 +3,7 @@ CONSTANTS
   StopOrders = {0}
   Family = "flat2"
   MaxDepth = 0
-  ProgTab <- MCProgTab
 SPECIFICATION MCSpec
-INVARIANTS ExitActionEnterOrder OncePerTransition StartStopShape EnterExitBalanced EnteredIffCurrent HandlerBeforeRoutes FirstMatchingRoute SubMachineFirstUntilTerminated ReentrantCallsRejected StateSane
+VIEW MCView
+INVARIANTS ExitActionEnterOrder OncePerTransition StartStopShape EnterExitBalanced EnteredIffCurrent HandlerBeforeRoutes FirstMatchingRoute SubMachineFirstUntilTerminated ReentrantCallsRejected StateSane NoViolation
 CHECK_DEADLOCK FALSE
